@@ -43,7 +43,7 @@ def policy_key_hex(ip, port):
 class Kernel:
     """loads the object, attaches connect4 to a private cgroup that contains this process and its children"""
 
-    def __init__(self, scratch, runtime="multi:4", endpoints=(True, True, True), handler=None):
+    def __init__(self, scratch, runtime="multi:4", endpoints=(True, True, True), handler=None, env=None):
         self.scratch = scratch
         self.unavailable = None
         self.cg = None
@@ -64,7 +64,7 @@ class Kernel:
         for name in ("wireserver", "hostga", "imds", "other"):
             ip, port = wproxy.DESTS[name]
             self.mocks[name] = mockhost.MockHost(ip, port, lambda r, n=name: self.handler(n, r), name=name)
-        self.shim = shimmod.Shim(os.path.join(scratch, "shim"), runtime=runtime)   # no GPA_VERIF_DIR: the production map path is used
+        self.shim = shimmod.Shim(os.path.join(scratch, "shim"), runtime=runtime, env=env)   # no GPA_VERIF_DIR: the production map path is used
         self.shim.call("init", log_dir="/var/log/azure-proxy-agent", log_level="Trace")
         # one start attempt that got as far as the start-up map updates and was then abandoned (the production retry loop creates a
         # fresh object per attempt; on this kernel every real attempt fails at the kprobe attach): the live object below is the retry
